@@ -245,6 +245,62 @@ def Sys.runDet (S : Sys K) : Nat → Nat → Array K → Array K
   | _, 0, u => u
   | k, m + 1, u => Sys.runDet S (k + 1) m (S.eulerStep k u)
 
+/-! ### the generator as a state (stream model of `pde.rng`)
+
+`NumpyBackend.make_gaussian_noise` closes over the equation's generator and calls
+`rng.standard_normal(data_shape)` once per invocation; `fixed_stepper` invokes it once per step.
+`next : σ → Array K × σ` is one such call (the array drawn and the generator state after it). -/
+
+/-- the first `m` draws of the generator and its state after them -/
+def draws {σ : Type} (next : σ → Array K × σ) : Nat → σ → List (Array K) × σ
+  | 0, g => ([], g)
+  | m + 1, g =>
+    let (x, g1) := next g
+    let (xs, g2) := draws next m g1
+    (x :: xs, g2)
+
+/-- `m` steps with the generator threaded through the loop: every step performs exactly one call
+of `next` *before* the single step is computed (euler.py:123 / milstein.py:119 / implicit.py:166
+call `gaussian_noise()` once), the state after the call is handed to the following step.
+Returned: final state and final generator state. -/
+def Sys.runGen {σ : Type} (S : Sys K) (sol : Solver) (next : σ → Array K × σ) :
+    Nat → Nat → Array K → σ → Option (Array K × σ)
+  | _, 0, u, g => some (u, g)
+  | k, m + 1, u, g =>
+    let (x, g1) := next g
+    match S.step sol k u x with
+    | none => none
+    | some u' => Sys.runGen S sol next (k + 1) m u' g1
+
+/-! ### additive noise on a collection (`SDEBase.make_noise_variance`, collection branch)
+
+The closure data for a `FieldCollection` whose fields have `ncomps[f]` tensor components on a grid
+with cell volumes `vol`, with one variance per field (`noise`; a single entry is broadcast):
+the variance array is constant in the state, its derivative vanishes.  The driver builds every
+collection case through this definition. -/
+def collSys (sqrt : K → K) (dt : K) (interp : Interp) (vol : Array K) (noise : List K)
+    (ncomps : List Nat) (rate : Nat → Array K → Array K) (real : Option (Array K → Array K))
+    (maxiter : Nat) (maxerr2 : K) : Sys K :=
+  let ncell := vol.size
+  let n := ncomps.sum * ncell
+  { n := n, ncell := ncell, dt := dt, s := sqrt dt, interp := interp, inv := invCell vol,
+    rate := rate, var := fun _ => constVar ncell (collVars noise ncomps),
+    varDiff := fun _ => tab n fun _ => zero, real := real, sqrt := sqrt,
+    maxiter := maxiter, maxerr2 := maxerr2 }
+
+/-- additive noise on a single field with `ncomp` tensor components (`SDEBase.make_noise_variance`, field branch:
+`np.broadcast_to(noise, data_shape)`, flattened: component `c` carries `noise[c % len]`).  The driver builds every
+`field` case through this definition. -/
+def fieldSys (sqrt : K → K) (dt : K) (interp : Interp) (vol : Array K) (noise : List K)
+    (ncomp : Nat) (rate : Nat → Array K → Array K) (real : Option (Array K → Array K))
+    (maxiter : Nat) (maxerr2 : K) : Sys K :=
+  let ncell := vol.size
+  let n := ncomp * ncell
+  { n := n, ncell := ncell, dt := dt, s := sqrt dt, interp := interp, inv := invCell vol,
+    rate := rate, var := fun _ => constVar ncell (fieldVars noise ncomp),
+    varDiff := fun _ => tab n fun _ => zero, real := real, sqrt := sqrt,
+    maxiter := maxiter, maxerr2 := maxerr2 }
+
 /-! ### the rate and variance families the driver instantiates -/
 
 /-- local reaction rate `a + b*u + c*(u*u*u)` with one coefficient triple per component -/
@@ -264,6 +320,15 @@ def quadVar (n ncell : Nat) (g0 g2 : Array K) (u : Array K) : Array K :=
 /-- ... and its derivative `(2*g2)*u` -/
 def quadVarDiff (n ncell : Nat) (g2 : Array K) (u : Array K) : Array K :=
   tab n fun i => ((2:Nat) : K) * get g2 (i / ncell) * get u i
+
+/-- the closure for the field-dependent variance family `g0 + g2*u²` (one coefficient pair per component) on a grid
+with cell volumes `vol`; `n = state.data.size`.  The driver builds every `quad` case through this definition. -/
+def quadSys (sqrt : K → K) (dt : K) (interp : Interp) (n : Nat) (vol g0 g2 : Array K)
+    (rate : Nat → Array K → Array K) (real : Option (Array K → Array K))
+    (maxiter : Nat) (maxerr2 : K) : Sys K :=
+  { n := n, ncell := vol.size, dt := dt, s := sqrt dt, interp := interp, inv := invCell vol,
+    rate := rate, var := quadVar n vol.size g0 g2, varDiff := quadVarDiff n vol.size g2,
+    real := real, sqrt := sqrt, maxiter := maxiter, maxerr2 := maxerr2 }
 
 end
 end PdeVerif.Noise
